@@ -42,6 +42,9 @@ def run(tier):
     run_cases(chk, cases, unit)
     import wl_checks
     wl_checks.c17_part(chk, tier, rng)
+    # CURRENT must keep naming a complete MANIFEST also when a call fails inside the roll-over
+    import crashcheck
+    crashcheck.window_faults(chk, tier, ['reopen', 'reopen-reuse'], tags={'faultreopen', 'crashopen'}, label='rollover-faults')
     return chk.finish()
 
 
